@@ -1182,6 +1182,8 @@ def run_index(ctx, prop, tier, master, idx, opts):
 # --------------------------------------------------------------------------
 
 def _fails(ctx, case, key):
+    if core.min_expired():
+        return False
     v, _, _ = execute(ctx, case, EventLog(0))
     return any(x.key() == key for x in v)
 
